@@ -270,6 +270,7 @@ func (p prop) Drive(d *core.Driver) error {
 	d.T.Set("corpus", map[string]int{"programs": len(corpus.Programs), "templates": len(corpus.Templates), "program_sets": len(corpus.ProgSets), "template_sets": len(corpus.TmplSets), "snippets": len(corpus.Snippets), "fragments": len(corpus.Fragments)})
 
 	total := d.N(30000, 1000000)
+	submitted := 0
 	round := 60000
 	done := 0
 	sampled := 0
@@ -322,6 +323,7 @@ func (p prop) Drive(d *core.Driver) error {
 		}
 		dr.runAll(mkCases(fmt.Sprintf("r%d", rn), inputs, batchSize, false), false)
 		done += len(inputs)
+		submitted += len(inputs)
 	}
 	// a portion under the race detector
 	if os.Getenv("VERIF_RACE_EXE") != "" {
@@ -345,12 +347,18 @@ func (p prop) Drive(d *core.Driver) error {
 			inputs = kept
 		}
 		d.T.Set("race_detector_inputs", len(inputs))
+		submitted += len(inputs)
 		dr.runAll(mkCases("race", inputs, raceBatchSize, true), true)
 	} else {
 		d.T.Set("race_detector_inputs", 0)
 		fmt.Println("NOTE property=C04 race-detector binary not available (VERIF_RACE_EXE unset): race portion skipped")
 	}
 	dr.report()
+	// sanity gate: every generated input must have been evaluated (a lost batch is a
+	// broken run, not silence)
+	if ev := d.T.Evaluations; ev < int64(submitted)*98/100 {
+		return fmt.Errorf("only %d of %d generated inputs were evaluated", ev, submitted)
+	}
 	return nil
 }
 
